@@ -56,8 +56,8 @@ def solver_cmds(txt, timeout):
     def cvc(name, secs, *opts): return (name, [CVC5, "--lang=smt2", "--tlimit=%d" % int(max(2, secs) * 1000), "--produce-models"] + list(opts), secs)
     zv = _z3_version()
     if uses_strings(txt) and ("forall" in txt or "exists" in txt):
-        return [cvc("cvc5-1.0.3", timeout * 0.2, "--strings-exp"), cvc("cvc5-1.0.3(enum-inst)", timeout * 0.4, "--strings-exp", "--enum-inst"),
-                z3c("z3-%s(e-matching)" % zv, Z3_NEW, timeout * 0.1, "smt.mbqi=false"), z3c("z3-%s" % zv, Z3_NEW, timeout * 0.3)]
+        return [cvc("cvc5-1.0.3", timeout * 0.2, "--strings-exp"), z3c("z3-%s(e-matching)" % zv, Z3_NEW, timeout * 0.1, "smt.mbqi=false"),
+                cvc("cvc5-1.0.3(enum-inst)", timeout * 0.4, "--strings-exp", "--enum-inst"), z3c("z3-%s" % zv, Z3_NEW, timeout * 0.3)]
     if uses_strings(txt):
         return [cvc("cvc5-1.0.3", timeout * 0.5, "--strings-exp"), z3c("z3-%s(e-matching)" % zv, Z3_NEW, timeout * 0.15, "smt.mbqi=false"),
                 z3c("z3-%s" % zv, Z3_NEW, timeout * 0.35)]
